@@ -900,6 +900,9 @@ func (p *Printer) loop(loop Loop) {
 		if loop.InPos.IsValid() {
 			p.spacedString(" in", Pos{})
 			p.wordJoin(loop.Items)
+		} else {
+			// Keep a following comment apart from the name.
+			p.wantSpace = spaceRequired
 		}
 	case *CStyleLoop:
 		p.w.WriteString("((")
